@@ -19,6 +19,7 @@ def _value_jobs(prop_id, family, scns, tier, seed, **kw):
     jobs = []
     bfs_budget, sim_budget = (800, 500) if tier == "quick" else (30000, 20000)
     bfs_budget = kw.pop("bfs_budget", bfs_budget)
+    sim_extra = kw.pop("sim_extra", 3)
     sim_budget = kw.pop("sim_budget", sim_budget)
     for s in scns:
         s = dict(s)
@@ -26,7 +27,7 @@ def _value_jobs(prop_id, family, scns, tier, seed, **kw):
         s["max_resp"] = S.bfs_bound(s, max(2, bfs_budget // ncfg))
         jobs.append(make_job(s, family, ("replay_basic", "replay"), mode="bfs",
                              prop_id=prop_id, **kw))
-        depth = s["max_resp"] + 3
+        depth = s["max_resp"] + sim_extra
         num = max(1, sim_budget // depth)
         jobs.append(make_job(s, family, ("replay_basic", "replay"), mode="sim", seed=seed,
                              sim_num=num, sim_depth=depth + 1, sim_max_resp=depth,
@@ -119,4 +120,50 @@ def c04(tier, seed):
     )
 
 
-PROPS = {"C01": c01, "C02": c02, "C03": c03, "C04": c04}
+def _insertion_scns(tier, seed, extra=()):
+    from scenarios import cat, mr, caitems, cacat, scenario
+    n = 8 if tier == "quick" else 40
+    scns = [
+        scenario("cat_x_cat", [cat("A", 4, miss=[2]), cat("B", 3, miss=[3])]),
+        scenario("cat_x_mr", [cat("A", 4, miss=[3]), mr("B", 2)]),
+        scenario("mr_x_cat", [mr("A", 2), cat("B", 4, miss=[1])]),
+        scenario("catdate_x_cat", [cat("A", 3, date=True), cat("B", 3)]),
+        scenario("casub_x_cacat", [caitems("A", 2), cacat("A", 3)]),
+        scenario("cat_1d", [cat("A", 4, miss=[2])]),
+        scenario("cat_x_cat.u", [cat("A", 3), cat("B", 3)], weighted=False),
+    ] + list(extra)
+    return _with_insertions(scns, n, seed)
+
+
+def c11(tier, seed):
+    scns = C.pairings_2d()[:8] + C.strands()[:2] + C.cubes_3d()[:4] + C.unweighted(C.pairings_2d()[:2])
+    scns = scns + [dict(s, name=s["name"] + ".ins") for s in _insertion_scns(tier, seed)]
+    return dict(
+        jobs=_value_jobs("C11", "c11", scns, tier, seed),
+        rule="as C04: plain scenarios plus seeded insertion configurations (subtotals, "
+             "differences, intersections) x TLC-enumerated bags; variances compared as "
+             "rationals, std-dev / std-err / MoE by square and sign",
+        assumptions=ASSUME_COMMON,
+        feature_floor=("weights_differ", "ins_rows", "diff_rows", "intersection"),
+    )
+
+
+def c12(tier, seed):
+    from scenarios import cat, scenario
+    scns = C.pairings_2d()[:8] + C.cubes_3d()[:5] + C.unweighted(C.pairings_2d()[:2])
+    scns.append(scenario("cat2_x_cat2", [cat("A", 3, miss=[2]), cat("B", 2)], max_resp=3))
+    scns = scns + [dict(s, name=s["name"] + ".ins") for s in _insertion_scns(tier, seed)
+                   if len(s["dims"]) > 1]
+    return dict(
+        jobs=_value_jobs("C12", "c12", scns, tier, seed,
+                         invariants=("EmitInv", "ThmZ2IsChiSq"), sim_extra=3),
+        rule="as C04 (plain + insertion configurations) x TLC-enumerated bags, so that "
+             "degenerate tables (single row/column, proportional rows, empty margins) occur; "
+             "z by sign and square, p against the two-sided normal tail of the spec's Z2; "
+             "spec theorem Z2 = chi-square on 2x2 checked by TLC in every state",
+        assumptions=ASSUME_COMMON + ["normal tail evaluated with math.erfc (tolerance 1e-9)"],
+        feature_floor=("weights_differ", "ins_rows"),
+    )
+
+
+PROPS = {"C12": c12, "C01": c01, "C02": c02, "C03": c03, "C04": c04, "C11": c11}
